@@ -218,9 +218,9 @@ def gen_op(rng, sh, stamped, projected):
 def make_reference(sh, seed, stamped):
     """a reference trajectory for align / align_origin with as many poses as the model"""
     rng = np.random.default_rng(seed)
-    A = rm.se3(gen.rand_rot(rng), rng.normal(size=3) * (float(np.std(sh.p)) + 1.0))
+    ext = float(np.std(sh.p - sh.p.mean(axis=0))) + 1e-3  # extent of the path, not its distance from the origin
+    A = rm.se3(gen.rand_rot(rng), rng.normal(size=3) * (ext + 1.0))
     s = 10.0**rng.uniform(-0.3, 0.3)
-    ext = float(np.std(sh.p)) + 1e-3
     p = (s * (A[:3, :3] @ sh.p.T)).T + A[:3, 3] + rng.normal(size=sh.p.shape) * ext * 0.05
     R = np.array([A[:3, :3] @ Rk for Rk in sh.R])
     t = sh.t if sh.t is not None else np.arange(sh.n, dtype=float)
@@ -286,6 +286,12 @@ def apply_op(run, case, real, sh, op, stamped, state, step):
         ref = make_reference(sh, op["seed"], stamped)
         ref_obj = gen.make_evo(ref, "se3", stamped)
         out = contracts.outcome_of(real.align, ref_obj, op["cs"], op["only"], op["n"])
+        # the alignment's documented effect is the Umeyama least-squares similarity of the
+        # current positions onto the reference's (same oracle as C03, at this call site)
+        used = sh.n if op["n"] == -1 else min(op["n"], sh.n)
+        if step is not None and sh.n >= 3 and used >= 3:
+            contracts.umeyama_oracle(run, case, sh.p[:used].T, ref["p"][:used].T, bool(op["cs"] or op["only"]), out,
+                                     pfx="align-op")
         if out[0] == "exc":
             run.check(isinstance(out[1], GeometryException), "align refuses only with GeometryException",
                       case, "align raised %r" % (out[1], ), key="align:wrong-exception")
